@@ -122,6 +122,8 @@ Definition pick_validator (delegated bonded : list vinfo) : option Z :=
   | _ => option_map v_addr (nth_error (v_sort delegated) 0)
   end.
 
+Inductive qres := QOk (z : Z) | QNoDelegation | QErr.
+
 Definition MIN_WITHDRAW : Z := 10 ^ 15.   (* minimumRewardWithdrawalAmount: 10^18 / 1000, decimals = 18 *)
 
 (* result of a precompile call: new state, logs, the boolean it returns, and (for the theorems) the native messages it
@@ -135,9 +137,8 @@ Section Cpc.
   (* distribution querier DelegationTotalRewards as withdrawRewards() reads it: per validator the truncated bond-denom
      amount, in the order returned, and whether the total is zero *)
   Variable q_rewards : nstate -> Z -> list (Z * Z) * bool.
-  (* the querier runs on the live context: it ends the current reward period of every validator the delegator is
-     bonded to (IncrementValidatorPeriod); this is the state afterwards *)
-  Variable q_rewards_touch : nstate -> Z -> nstate.
+  (* (the querier itself writes — it ends the current reward period of every validator the delegator is bonded to —
+     but withdrawRewards() evaluates it on a discarded branch of the state, so it is a pure function of the state) *)
   Variable q_balance : nstate -> Z -> Z.                 (* bank balance, bond denom *)
   Variable q_delegated_bonded : nstate -> Z -> list vinfo. (* GetAllDelegatorDelegations filtered by IsBonded *)
   Variable q_bonded : nstate -> list vinfo.               (* IterateLastValidators *)
@@ -225,12 +226,12 @@ Section Cpc.
     | CWithdrawRewards =>
         let ms := withdraw_all_msgs s caller in
         (* with nothing to withdraw no event is emitted and the call fails in autoEmitEventsFromSdkEvents *)
-        finish caller true ms (run_native (q_rewards_touch s caller) ms)
+        finish caller true ms (run_native s ms)
     | CWithdrawRewardsByMessage m sig =>
         if wm_valid m && sig_ok caller (wm_delegator m) (TWithdraw m) sig then
           let d := wm_delegator m in
           match wm_from m with
-          | FromAll => let ms := withdraw_all_msgs s d in finish d true ms (run_native (q_rewards_touch s d) ms)
+          | FromAll => let ms := withdraw_all_msgs s d in finish d true ms (run_native s ms)
           | FromVal v => simple s d (MsgWithdrawDelegatorReward d v)
           | FromOther => None
           end
@@ -238,7 +239,7 @@ Section Cpc.
     | CTransfer to a =>
         if negb (caller =? 0) && negb (to =? 0) && (caller =? to) && (0 <? a) then
           let ms := withdraw_all_msgs s caller in
-          match run_native (q_rewards_touch s caller) ms with
+          match run_native s ms with
           | None => None
           | Some (s1, e1) =>
               if q_balance s1 caller <? a then None
@@ -256,21 +257,133 @@ Section Cpc.
         else None
     end.
 
+  (* ---------------------------------------------------------------- the corresponding native submission *)
+  (* What a user [d] would submit natively instead of the call, written down independently of [cpc_step] (this is
+     what the twin-chain driver runs on chain B): admissibility of the call, a first batch of messages, and — for
+     transfer() only — a second batch chosen on the state the first batch left; one transaction, all or nothing. *)
+  Definition guard (d : Z) (c : call) : bool :=
+    match c with
+    | CDelegate _ a | CUndelegate _ a | CRedelegate _ _ a => 0 <? a
+    | CDelegateByMessage m sig => sm_valid m && sig_ok d (sm_delegator m) (TStaking m) sig
+    | CWithdrawReward _ | CWithdrawRewards => true
+    | CWithdrawRewardsByMessage m sig => wm_valid m && sig_ok d (wm_delegator m) (TWithdraw m) sig
+    | CTransfer to a => negb (d =? 0) && negb (to =? 0) && (d =? to) && (0 <? a)
+    end.
+
+  Definition first_msgs (s : nstate) (d : Z) (c : call) : option (list nmsg) :=
+    match c with
+    | CDelegate v a => Some [MsgDelegate d v a]
+    | CUndelegate v a => Some [MsgUndelegate d v a]
+    | CRedelegate src dst a => Some [MsgBeginRedelegate d src dst a]
+    | CDelegateByMessage m _ =>
+        match sm_action m, sm_validator m, sm_old m with
+        | ADelegate, Some v, _ => Some [MsgDelegate d v (sm_amount m)]
+        | AUndelegate, Some v, _ => Some [MsgUndelegate d v (sm_amount m)]
+        | ARedelegate, Some v, OldVal o => Some [MsgBeginRedelegate d o v (sm_amount m)]
+        | _, _, _ => None
+        end
+    | CWithdrawReward v => Some [MsgWithdrawDelegatorReward d v]
+    | CWithdrawRewards | CTransfer _ _ => Some (withdraw_all_msgs s d)
+    | CWithdrawRewardsByMessage m _ =>
+        match wm_from m with
+        | FromAll => Some (withdraw_all_msgs s d)
+        | FromVal v => Some [MsgWithdrawDelegatorReward d v]
+        | FromOther => None
+        end
+    end.
+
+  Definition second_msgs (s1 : nstate) (d : Z) (c : call) : option (list nmsg) :=
+    match c with
+    | CTransfer _ a =>
+        if q_balance s1 d <? a then None
+        else option_map (fun v => [MsgDelegate d v a]) (pick_validator (q_delegated_bonded s1 d) (q_bonded s1))
+    | _ => Some []
+    end.
+
+  Definition native_prog (s : nstate) (d : Z) (c : call) : option (nstate * list nevent * list nmsg) :=
+    if guard d c then
+      match first_msgs s d c with
+      | None => None
+      | Some m1 =>
+          match run_native s m1 with
+          | None => None
+          | Some (s1, e1) =>
+              match second_msgs s1 d c with
+              | None => None
+              | Some m2 =>
+                  match run_native s1 m2 with
+                  | None => None
+                  | Some (s2, e2) => Some (s2, e1 ++ e2, m1 ++ m2)
+                  end
+              end
+          end
+      end
+    else None.
+
+  (* ---------------------------------------------------------------- histories, twin chains *)
+  (* a precompile call reached from a transaction of [sender] through [path]; a native message submitted directly;
+     anything else that happens identically on both chains (block progression, reward accrual, maturing entries) *)
+  Inductive op :=
+  | OCall (sender : Z) (path : list hop) (c : call)
+  | ONative (m : nmsg)
+  | OOther (f : nstate -> nstate).
+
+  (* chain A: the precompile; a failed call leaves the state as it was *)
+  Definition step_A (s : nstate) (o : op) : nstate :=
+    match o with
+    | OCall sender path c =>
+        match cpc_step s (precompile_caller sender path) c with Some (s', _, _, _) => s' | None => s end
+    | ONative m => match native_step s m with Some (s', _) => s' | None => s end
+    | OOther f => f s
+    end.
+
+  (* chain B: the native submission by the same account; a failed transaction leaves the state as it was *)
+  Definition step_B (s : nstate) (o : op) : nstate :=
+    match o with
+    | OCall sender path c =>
+        match native_prog s (precompile_caller sender path) c with Some (s', _, _) => s' | None => s end
+    | ONative m => match native_step s m with Some (s', _) => s' | None => s end
+    | OOther f => f s
+    end.
+
+  Definition run_A (s : nstate) (ops : list op) : nstate := fold_left step_A ops s.
+  Definition run_B (s : nstate) (ops : list op) : nstate := fold_left step_B ops s.
+
+  (* every native message chain A's history hands to the message servers on behalf of a precompile call, with the
+     immediate caller of that call *)
+  Fixpoint issued_A (s : nstate) (ops : list op) : list (Z * nmsg) :=
+    match ops with
+    | [] => []
+    | o :: r =>
+        (match o with
+         | OCall sender path c =>
+             let caller := precompile_caller sender path in
+             match cpc_step s caller c with Some (_, _, _, ms) => map (pair caller) ms | None => [] end
+         | _ => []
+         end) ++ issued_A (step_A s o) r
+    end.
+
   (* ---------------------------------------------------------------- views *)
-  Variable q_delegation_tokens : nstate -> Z -> Z -> Z.   (* TokensFromShares(shares).TruncateInt(), 0 without delegation *)
-  Variable q_bonded_total : nstate -> Z -> Z.              (* GetDelegatorBonded *)
-  Variable q_reward : nstate -> Z -> Z -> Z.               (* DelegationRewards, truncated; 0 without delegation *)
-  Variable q_rewards_total : nstate -> Z -> Z.             (* DelegationTotalRewards total, truncated *)
-  Variable q_validators : nstate -> Z -> list Z.           (* validators of GetAllDelegatorDelegations *)
+  (* a native query's answer: a number, the staking module's "no delegation" error, any other error *)
+  Variable q_delegation_tokens : nstate -> Z -> Z -> qres. (* GetDelegation + Validator.TokensFromShares(shares).TruncateInt() *)
+  Variable q_bonded_total : nstate -> Z -> qres.            (* GetDelegatorBonded *)
+  Variable q_reward : nstate -> Z -> Z -> qres.             (* distribution querier DelegationRewards, bond denom, truncated *)
+  Variable q_rewards_total : nstate -> Z -> qres.           (* distribution querier DelegationTotalRewards total, truncated *)
 
   Inductive view := VDelegationOf (a v : Z) | VTotalDelegationOf (a : Z) | VRewardOf (a v : Z) | VRewardsOf (a : Z) | VBalanceOf (a : Z).
 
-  Definition view_step (s : nstate) (w : view) : Z :=
+  (* delegationOf and rewardOf answer 0 where the native query says "no delegation"; any other error fails the call *)
+  Definition zero_if_none (r : qres) : option Z :=
+    match r with QOk z => Some z | QNoDelegation => Some 0 | QErr => None end.
+  Definition strict (r : qres) : option Z := match r with QOk z => Some z | _ => None end.
+
+  (* None = the view call fails *)
+  Definition view_step (s : nstate) (w : view) : option Z :=
     match w with
-    | VDelegationOf a v => q_delegation_tokens s a v
-    | VTotalDelegationOf a => q_bonded_total s a
-    | VRewardOf a v => q_reward s a v
-    | VRewardsOf a => q_rewards_total s a
-    | VBalanceOf a => q_balance s a + q_rewards_total s a
+    | VDelegationOf a v => zero_if_none (q_delegation_tokens s a v)
+    | VTotalDelegationOf a => strict (q_bonded_total s a)
+    | VRewardOf a v => zero_if_none (q_reward s a v)
+    | VRewardsOf a => strict (q_rewards_total s a)
+    | VBalanceOf a => option_map (Z.add (q_balance s a)) (strict (q_rewards_total s a))
     end.
 End Cpc.
